@@ -46,7 +46,7 @@ PROPS = {
     "C02": {
         "rx": True,
         "n": {"quick": 2500, "thorough": 150000},
-        "cone": ["Bytes", "Regex", "Generated", "Netconf", "NetconfLemmas", "NcSession", "NcSessionLemmas", "NcSegLemmas", "BytesLemmas", "Channel", "PlatformTypes"],
+        "cone": ["Bytes", "Regex", "Generated", "Netconf", "NetconfLemmas", "NcSession", "NcSessionLemmas", "NcSegLemmas", "BytesLemmas", "Channel", "PlatformTypes", "DecideLang", "GeneratedSkel", "RecordSrc", "RecordSrcOk"],
         "rule": "NetconfResponse.Record on raw bytes under recover(): well-formed stream = generated payloads (multi-byte UTF-8, '#', digits, "
                 "LF, ']]>' and rpc-error variants at chunk edges) x random partitions (incl. 1-byte chunks) x surrounding whitespace; malformed "
                 "stream = truncations, size mutations (negative/alpha/oversize/empty), dropped terminator, junk at marker positions, over-long "
